@@ -233,6 +233,7 @@ func (st *Runtime) recover(err *error) {
 	// reset state scope and context just to be safe (they might not be cleared properly if there was a panic while using the state)
 	st.scope = &scope{}
 	st.context = reflect.Value{}
+	st.content = nil
 	pool_State.Put(st)
 	if recovered := recover(); recovered != nil {
 		var ok bool
